@@ -106,7 +106,10 @@ func (p *policyRulesMergeContext) merge(policy *PolicyRules) {
 		existing, found := p.identityRules[id.Name]
 
 		if !found {
-			p.identityRules[id.Name] = id
+			// Store a copy: the rule is updated in place below, and the
+			// source policy object is shared through the parsed-policy cache.
+			merged := *id
+			p.identityRules[id.Name] = &merged
 			continue
 		}
 
@@ -124,7 +127,10 @@ func (p *policyRulesMergeContext) merge(policy *PolicyRules) {
 		existing, found := p.identityPrefixRules[id.Name]
 
 		if !found {
-			p.identityPrefixRules[id.Name] = id
+			// Store a copy: the rule is updated in place below, and the
+			// source policy object is shared through the parsed-policy cache.
+			merged := *id
+			p.identityPrefixRules[id.Name] = &merged
 			continue
 		}
 
@@ -224,7 +230,10 @@ func (p *policyRulesMergeContext) merge(policy *PolicyRules) {
 		existing, found := p.serviceRules[sp.Name]
 
 		if !found {
-			p.serviceRules[sp.Name] = sp
+			// Store a copy: the rule is updated in place below, and the
+			// source policy object is shared through the parsed-policy cache.
+			merged := *sp
+			p.serviceRules[sp.Name] = &merged
 			continue
 		}
 
@@ -242,7 +251,10 @@ func (p *policyRulesMergeContext) merge(policy *PolicyRules) {
 		existing, found := p.servicePrefixRules[sp.Name]
 
 		if !found {
-			p.servicePrefixRules[sp.Name] = sp
+			// Store a copy: the rule is updated in place below, and the
+			// source policy object is shared through the parsed-policy cache.
+			merged := *sp
+			p.servicePrefixRules[sp.Name] = &merged
 			continue
 		}
 
